@@ -56,6 +56,15 @@ func c40Progs() []c40Prog {
 		{"redir-fails", "fail x > " + f("o3") + " 2> " + f("o4"), false},
 		{"redir-dup-close", "{ echo a; echo b >&2 } 2>&1 3>&-", false},
 		{"peach", "put a b | peach {|x| put $x } | count", false},
+		// builtins that capture the output of a callback internally, with the callback succeeding and failing
+		{"order-key", "order &key={|x| put $x } [b a]", false},
+		{"order-key-fails", "order &key={|x| fail k } [b a]", false},
+		{"order-less-than-fails", "order &less-than={|a b| fail k } [b a]", false},
+		{"keep-if-fails", "put a b | keep-if {|x| fail k }", false},
+		{"keep-if", "put a b | keep-if {|x| put $true }", false},
+		{"styled-transformer-fails", "put (styled x {|s| fail k })", false},
+		{"capture-fails-midway", "put (put a; fail x)", false},
+		{"nested-capture-fails", "put [(put a | each {|x| put (fail y) })]", false},
 		{"interrupted-pipeline", "range 4 | each {|x| put $x } | count", true},
 		{"interrupted-redir", "range 3 | each {|x| echo $x } > " + f("o5"), true},
 		{"interrupted-peach", "range 3 | peach &num-workers=2 {|x| put $x }", true},
@@ -131,7 +140,7 @@ func TestVerifC40(t *testing.T) {
 		return
 	}
 	vk.Run(t, "C40", "exploration", func(c *vk.Ctx) {
-		c.Rule("14 programs (pipelines of values and bytes, early exit, failing stages, output and exception capture, file redirections incl. dup/close, peach; three of them with an interrupt placed by the scheduler at every point) on the real Evaler; every schedule with <=2 departures from the default goroutine; on each: the set of open file descriptors after Eval returned equals the set before, and no goroutine is left parked; then each program is evaluated 200 times in one free-running process and the descriptor set must be the same after every iteration; class = distinct (program, result, blocking profile)")
+		c.Rule("22 programs (pipelines of values and bytes, early exit, failing stages, output and exception capture, builtins that capture a callback's output (order &key/&less-than, keep-if, styled) with failing callbacks, file redirections incl. dup/close, peach; three of them with an interrupt placed by the scheduler at every point) on the real Evaler; every schedule with <=2 departures from the default goroutine; on each: the set of open file descriptors after Eval returned equals the set before, and no goroutine is left parked; then each program is evaluated 200 times in one free-running process and the descriptor set must be the same after every iteration; class = distinct (program, result, blocking profile)")
 		c.Assume("pkg/eval rewritten for the controlled scheduler; descriptors are observed through /proc/self/fd; background jobs and explicit file opens are outside the property and not generated")
 		vshard.Run(c, c40Scenarios(), cfg)
 		// sequential repetition on the real primitives (outside the scheduler)
